@@ -14,7 +14,12 @@ import (
 
 func (c *Ctx) ownEng() *own.Eng {
 	if c.oe == nil {
-		c.oe = own.New(c.P)
+		if e := sharedOE[c.P]; e != nil {
+			c.oe = e
+		} else {
+			c.oe = own.New(c.P)
+			sharedOE[c.P] = c.oe
+		}
 	}
 	return c.oe
 }
